@@ -75,6 +75,7 @@ class World:
         self.reported = []  # (t_requested_index, tok_sol, t_reported)
         self.context = "first"
         self.burst_left = 0
+        self.zero_left = 0
         self.at_t1_repeat = 0
         self.last_accept_clipped = False
         self.attempts = 0
@@ -159,6 +160,14 @@ class World:
             return 2.0
         ep = hs * noise / dt
         fault = None
+        # F11: the error estimate vanishes exactly (error_power = inf), possibly several attempts in a row
+        pz = sc.get("p_zero_error", 0.0)
+        if pz > 0.0:
+            uz = self.rng.random()
+            if self.zero_left > 0 or uz < pz:
+                self.zero_left = self.zero_left - 1 if self.zero_left > 0 else (2 if uz < 0.5 * pz else 0)
+                ep = float("inf")
+                self.bump(self.faults, "F11_zero_error_estimate")
         # F1 / F10: spurious rejections, biased towards in-flight moments
         u = self.rng.random()
         if self.burst_left > 0:
